@@ -119,7 +119,7 @@ structure State where
   spc : SPc
   th : Tid → IThread
   -- ghost history
-  execLog : List (Nat × Nat)  -- (command id, solver.count) in order of execution
+  execLog : List (Nat × Nat × Val)  -- (command id, solver.count, result) in order of execution
   queuedLog : List Nat        -- ids in the order they were appended to `queue`
   delivered : List (Nat × Val)  -- what `get_result` returned, per id
 
@@ -192,7 +192,19 @@ def runQueue (cfg : Cfg) (ctx : Ctx) (s : State) : State :=
   | id :: rest =>
     match lookupCmd s.qdict id with
     | some c => { s with queue := rest, spc := SPc.runAcqRes ctx id c }
-    | none => { s with queue := rest, spc := SPc.crashed }
+    | none => { s with spc := SPc.crashed }    -- KeyError ends the solver thread
+
+/-- result of running a command when `solver.count = n` -/
+def cmdVal (c : Cmd) (n : Nat) : Val :=
+  match c with
+  | Cmd.set _ => Val.none
+  | Cmd.probe => Val.cnt n
+
+/-- effect of running a command on `solver.dt` -/
+def cmdDt (c : Cmd) (dt : Int) : Int :=
+  match c with
+  | Cmd.set v => v
+  | Cmd.probe => dt
 
 /-- the predicate of the repaired `wait()` -/
 def mustWait (s : State) (t : Tid) : Bool := decide (t ∈ s.pause) && !decide (t ∈ s.paused)
@@ -209,16 +221,12 @@ def stepSolver (cfg : Cfg) (s : State) : Option (State × List Ev) :=
     else none
   | SPc.runAcqRes ctx id c =>
     if s.resLock = none then
-      let s1 := { s with resLock := some 0, execLog := s.execLog ++ [(id, s.count)],
-                         qdict := s.qdict.filter (fun e => e.1 ≠ id),
-                         spc := SPc.runRelC ctx id }
-      match c with
-      | Cmd.set v =>
-        some ({ s1 with dt := v, results := s1.results ++ [(id, Val.none)] },
-              [Ev.acq LockName.res])
-      | Cmd.probe =>
-        some ({ s1 with results := s1.results ++ [(id, Val.cnt s.count)] },
-              [Ev.acq LockName.res])
+      some ({ s with resLock := some 0,
+                     execLog := s.execLog ++ [(id, s.count, cmdVal c s.count)],
+                     qdict := s.qdict.filter (fun e => e.1 ≠ id),
+                     dt := cmdDt c s.dt,
+                     results := s.results ++ [(id, cmdVal c s.count)],
+                     spc := SPc.runRelC ctx id }, [Ev.acq LockName.res])
     else none
   | SPc.runRelC ctx id =>
     if id ∈ s.cLocked ∧ id ∈ s.lockmap then
